@@ -180,6 +180,10 @@ def tbLineMon (d : TBDrv) (lineNo : Nat) (ts : List String) : TBDrv × List Stri
     let ms := post.headD "nothing"
     ({ d with pending := some { label := "fire." ++ ms, line := lineNo, implOk := true, membership := false },
               mon := TBSpec.noteOp d.mon ("fire." ++ ms) pre true d.lastObs }, [])
+  | "retry" :: _ =>
+    let ms := post.headD "nothing"
+    ({ d with pending := some { label := "fire." ++ ms, line := lineNo, implOk := true, membership := false },
+              mon := TBSpec.noteOp d.mon ("fire." ++ ms) pre true d.lastObs }, [])
   | "snap-opened" :: rest =>
     match parseTObs d.cfg rest with
     | some o =>
@@ -320,6 +324,21 @@ def tbLineCore (d : TBDrv) (lineNo : Nat) (ts : List String) : TBDrv × List Str
         else ({ d with model := some r.1, pending := some { label := "fire." ++ ms, line := lineNo, implOk := true, membership := false },
                        mon := TBSpec.noteOp d.mon ("fire." ++ ms) pre true d.lastObs }, [])
       else mism d s!"op=fire model={ms} impl={String.intercalate " " post}"
+    | _, _ => (d, [s!"BADLINE {lineNo}"])
+  | "retry" :: rest =>
+    -- a turn of tableGameOpen's retry loop, 3 s after a refused attempt (the engine lock held all the while)
+    match kvInt rest "ch", (kv rest "create").bind boolOf with
+    | some ch, some createOk =>
+      let choice : Option Int := if ch == -1 then none else some ch
+      let needsChoice := !m.sm.isInit
+      let r := retryOpen m (if needsChoice then choice else none) createOk
+      let ms := match r.2 with | .opened => "opened" | .refused => "refused" | .nothing => "nothing" | .startFailed => "startfailed" | .panic => "panic"
+      let d := { d with cnt := (d.cnt.bump "retry").bump ("retry." ++ ms) }
+      if post == [ms] then
+        if needsChoice && ms == "opened" && !(SM.legalInitChoice m.sm choice) then mism d s!"op=retry illegal-first-seat={ch}"
+        else ({ d with model := some r.1, pending := some { label := "fire." ++ ms, line := lineNo, implOk := true, membership := false },
+                       mon := TBSpec.noteOp d.mon ("fire." ++ ms) pre true d.lastObs }, [])
+      else mism d s!"op=retry model={ms} impl={String.intercalate " " post}"
     | _, _ => (d, [s!"BADLINE {lineNo}"])
   | "snap-opened" :: rest =>
     match parseTObs d.cfg rest with
